@@ -31,18 +31,17 @@ def gapOf : Re → Gap
   | .rangeAny lo hi _ => { gmin := lo, gmax := hi }
   | _ => { gmin := 0, gmax := 0 }
 
-/-- the pieces (as lists of children) and the gaps between them: `cur` = children of the piece being collected -/
-def splitGo : List Re → List Re → List (List Re) × List Gap
-  | cur, [] => ([cur], [])
+/-- the head piece (as a list of children) and, for every further piece, the gap before it: `cur` = children of the piece
+    being collected -/
+def splitGo : List Re → List Re → List Re × List (Gap × List Re)
+  | cur, [] => (cur, [])
   | cur, x :: t =>
     if isChainPoint x && !cur.isEmpty && !t.isEmpty then
-      let (ps, gs) := splitGo [] t
-      (cur :: ps, gapOf x :: gs)
+      ((cur, (gapOf x, (splitGo [] t).1) :: (splitGo [] t).2))
     else splitGo (cur ++ [x]) t
 
-/-- the chain of a string: pieces and the gaps between consecutive pieces -/
-def chainSplit (r : Re) : List Re × List Gap :=
-  let (ps, gs) := splitGo [] (spine r)
-  (ps.map unspine, gs)
+/-- the chain of a string: the head piece, then (gap, piece) for every further piece -/
+def chainSplit (r : Re) : Re × List (Gap × Re) :=
+  (unspine (splitGo [] (spine r)).1, (splitGo [] (spine r)).2.map fun gp => (gp.1, unspine gp.2))
 
 end YaraModel.ReSplit
